@@ -26,7 +26,7 @@ from pathlib import Path
 import numpy as np
 
 import common
-from common import Atom, a_rat, deep, dec, req
+from common import Atom, a_int, a_rat, deep, dec, req
 
 RULE = (
     "cases = (target/decoy score mixture: size 100..3000 with >= 50 targets and >= 50 decoys, null shape "
@@ -36,7 +36,16 @@ RULE = (
     "arrangement, score multiset hash); non-trivial = input not already in descending score order (alignment "
     "is observable) or ties present; thorough adds exhaustive small-scope sweeps of the real composition code "
     "(np.interp/monotonize_simple primitives, the qvality wrapper with a stub kernel over all score vectors in "
-    "{0,1,2}^n, n<=6 and all labellings, qvalues_from_peps / qvalues_from_counts over all such vectors)"
+    "{0,1,2}^n, n<=6 and all labellings, qvalues_from_peps / qvalues_from_counts over all such vectors); "
+    "every estimator is reached through its entry point with the name given positionally, by keyword or (qvality) "
+    "omitted; dispatch cases = (table PEP_ALGORITHM | QVALUE_ALGORITHM) x (every table name, names of the other "
+    "table, unknown / mutated names, omitted argument) x call form; writer cases = all label vectors of levels "
+    "with <= 4 (thorough 6) rows x every chunk size 1..n+1 x decoys on/off through write_confidences + create_chunks "
+    "+ the chunked reader, plus sequences of unequal lengths; result-file runs = assign_confidence on (PIN | "
+    "Parquet) x CONFIDENCE_CHUNK_SIZE (1,2,3,5,7,n-1,n,n+1 on small levels; 37..150 on levels of 250-400 rows) x "
+    "decoys on/off x descs [True]|[False] x qvalue_algorithm x peps_error, with the PEP estimator real (hist_nnls, "
+    "kde_nnls; thorough also qvality) or replaced by a stub (pointwise function, all ones, SystemExit 'no decoy "
+    "hits', other SystemExit, exception)"
 )
 
 TOL = 1e-9          # float64 composition vs. exact rational model
@@ -135,8 +144,9 @@ def recording(stub_kernel=None, stub_pi0=None):
             setattr(mod, name, old)
 
 
-def run_impl(alg, s, t, **kw):
-    """-> (output array, Rec); exceptions propagate"""
+def run_impl(alg, s, t, form="positional", **kw):
+    """-> (output array, Rec); exceptions propagate.  `form`: how the algorithm name is handed to the entry
+    point: "positional", "keyword", or "default" (argument omitted; only for the default estimator qvality)"""
     import mokapot.peps as P
     import mokapot.qvalues as Q
 
@@ -145,9 +155,18 @@ def run_impl(alg, s, t, **kw):
     with recording(**kw) as rec, warnings.catch_warnings(), np.errstate(all="ignore"):
         warnings.simplefilter("ignore")
         if alg in PEP_ALGS:
-            out = P.peps_from_scores(s, t, alg)
+            if form == "default":
+                assert alg == "qvality"
+                out = P.peps_from_scores(s, t)
+            elif form == "keyword":
+                out = P.peps_from_scores(s, t, pep_algorithm=alg)
+            else:
+                out = P.peps_from_scores(s, t, alg)
         else:
-            out = Q.qvalues_from_scores(s, t, alg)
+            if form == "keyword":
+                out = Q.qvalues_from_scores(s, t, qvalue_algorithm=alg)
+            else:
+                out = Q.qvalues_from_scores(s, t, alg)
     return np.asarray(out, dtype=float), rec
 
 
@@ -347,6 +366,30 @@ def model_request(alg, s, t, rec):
     raise AssertionError(alg)
 
 
+NONE = Atom("none")
+
+
+def entry_requests(alg, s, t, rec, form="positional"):
+    """requests for the models of the *entry points* (dispatch table + default pipelines of
+    Model/PepsFile.lean), fed with the recorded kernel outputs only: [(op label, request line)]"""
+    name = NONE if form == "default" else alg
+    if alg == "qvality":
+        return [("pepsfromscores", req("pepsfromscores", name, fl(rec.qvality[0][2]), [], [], psms(s, t)))]
+    if alg == "kde_nnls":
+        return [("pepsfromscores", req("pepsfromscores", name, [], fl(rec.kde_grid[0]), fl(rec.nnls[0]), psms(s, t)))]
+    if alg == "hist_nnls":
+        return [("pepsfromscores", req("pepsfromscores", name, [], fl(rec.hist_grid[0]), fl(rec.nnls[0]), psms(s, t)))]
+    ind = [int(i) for i in np.argsort(-np.array(s, dtype=float))]
+    if alg == "from_peps":
+        if not rec.hist_grid or not rec.nnls:   # PEPs handed in by the caller: the default pipeline did not run
+            return []
+        # the PEPs are NOT read back from the code here: the model derives them from (grid, NNLS solution)
+        return [("frompepshist", req("frompepshist", fl(rec.hist_grid[0]), fl(rec.nnls[0]), psms(s, t), ind))]
+    if alg == "from_counts":
+        return [("fromcountspi0", req("fromcountspi0", F(rec.pi0[0]), psms(s, t), ind))]
+    return []
+
+
 def parse_model(line):
     line = line.strip()
     if line.startswith("["):
@@ -359,7 +402,7 @@ def parse_model(line):
 # ----------------------------------------------------------------------------------------------
 def jsonable(case, alg, perm=None):
     d = dict(alg=alg, scores=[float(x).hex() for x in case["scores"]], labels=[bool(x) for x in case["labels"]])
-    for k in ("shape", "gran", "arr", "stub"):
+    for k in ("shape", "gran", "arr", "stub", "form"):
         if k in case:
             d[k] = case[k]
     if perm is not None:
@@ -421,7 +464,9 @@ def eval_one(chk, case, alg, perm, pending, stub=None):
     """run the implementation on the case and on its permuted copy; queue the model request"""
     s = np.array(case["scores"], dtype=float)
     t = np.array(case["labels"], dtype=bool)
-    kw = stub or {}
+    kw = dict(stub or {})
+    form = case.get("form", "positional")
+    kw["form"] = form
     try:
         out, rec = run_impl(alg, s, t, **kw)
     except BaseException as e:  # SystemExit from triqler included
@@ -437,6 +482,7 @@ def eval_one(chk, case, alg, perm, pending, stub=None):
                          scores_head=[float(x) for x in s[:6]], labels_head=[bool(x) for x in t[:6]],
                          impl_head=[float(x) for x in out[:6]]))
     chk.count("alg", alg)
+    chk.count("entry_point_form", f"{alg}:{form}")
     chk.count("n", (len(s) // 100) * 100 if len(s) >= 100 else len(s))
     chk.count("ties", ties)
     chk.count("arrangement", case.get("arr"))
@@ -508,42 +554,73 @@ def eval_one(chk, case, alg, perm, pending, stub=None):
     # model
     try:
         line = model_request(alg, s, t, rec)
+        # entry-point models: for the PEP estimators `pepsfromscores` repeats the estimator model behind the
+        # table, so it is requested when the name was given by keyword or omitted (the positional form is the
+        # dispatch test's); the q-value pipelines are quadratic in exact rationals: all cases up to 500 rows,
+        # every third above
+        if alg in PEP_ALGS:
+            want = form != "positional" or bool(stub)
+        else:
+            want = len(s) <= 500 or len(s) % 3 == 0 or bool(stub)
+        extras = entry_requests(alg, s, t, rec, form) if want else []
+        chk.count("entry_model_requested", f"{alg}:{bool(extras)}")
     except Exception as e:  # recorded kernel data unusable (e.g. a mutated code path skipped the kernel)
         chk.corr_break(alg, dict(case=jsonable(case, alg), error="no kernel record: " + repr(e)[:200]))
         return
-    pending.append((alg, case, s, out, line))
+    pending.append((alg, case, s, out, line, extras))
+
+
+def compare_model(chk, op, alg, case, out, resp_line):
+    """implementation output vs one model response; -> True when they agree"""
+    m = parse_model(resp_line)
+    if isinstance(m, str):
+        if m == "inf-all" and np.isinf(out).all() and (out > 0).all():
+            return True
+        if m == "nan-all" and np.isnan(out).all():
+            return True
+        chk.corr_break(op, dict(case=jsonable(case, alg), impl=[float(x) for x in out[:50]], model=m))
+        return False
+    if not close(out, m):
+        k2 = int(np.argmax(np.abs(np.nan_to_num(out - m, nan=np.inf)))) if out.shape == m.shape else -1
+        chk.corr_break(op, dict(case=jsonable(case, alg), impl=[float(x) for x in out[:50]],
+                                model=[float(x) for x in m[:50]], first_diff_row=k2))
+        return False
+    return True
 
 
 def flush(chk, pending, spec_too=True):
     if not pending:
         return
     lines = []
-    for alg, case, s, out, line in pending:
+    where = []   # per pending entry: (index of the model line, index of the spec line, [(op, index) extras])
+    for ent in pending:
+        alg, case, s, out, line = ent[:5]
+        extras = ent[5] if len(ent) > 5 else []
+        i_model = len(lines)
         lines.append(line)
         small = spec_too and len(s) <= 250 and np.isfinite(out).all()
         hi = Fraction(1) if alg in PEP_ALGS else None
+        i_spec = len(lines)
         lines.append(req("spec-C06", Fraction(0), hi, F(MONO_TOL), fl(s), fl(out)) if small
                      else req("spec-C06", Fraction(0), None, Fraction(0), [], []))
+        ex = []
+        for op, l in extras:
+            ex.append((op, len(lines)))
+            lines.append(l)
+        where.append((i_model, i_spec, ex))
     resp = common.driver_batch(lines)
-    for k, (alg, case, s, out, _) in enumerate(pending):
-        m = parse_model(resp[2 * k])
-        sp = resp[2 * k + 1].strip()
+    for ent, (i_model, i_spec, ex) in zip(pending, where):
+        alg, case, s, out = ent[:4]
+        sp = resp[i_spec].strip()
         if sp != "ok":
             chk.spec_violation(f"{sp}:{alg}", dict(case=jsonable(case, alg), impl=[float(x) for x in out[:50]],
                                                    clause=f"spec-C06 (Lean checker) answers {sp}"))
             continue
-        if isinstance(m, str):
-            if m == "inf-all" and np.isinf(out).all() and (out > 0).all():
-                continue
-            if m == "nan-all" and np.isnan(out).all():
-                continue
-            chk.corr_break(alg, dict(case=jsonable(case, alg), impl=[float(x) for x in out[:50]], model=m))
-        elif not close(out, m):
-            k2 = int(np.argmax(np.abs(np.nan_to_num(out - m, nan=np.inf)))) if out.shape == m.shape else -1
-            chk.corr_break(alg, dict(case=jsonable(case, alg), impl=[float(x) for x in out[:50]],
-                                     model=[float(x) for x in m[:50]], first_diff_row=k2))
-        else:
+        if compare_model(chk, alg, alg, case, out, resp[i_model]):
             chk.count("model_agrees", alg)
+        for op, i in ex:
+            if compare_model(chk, f"{op}:{alg}", alg, case, out, resp[i]):
+                chk.count("entry_model_agrees", f"{op}:{alg}")
     pending.clear()
 
 
@@ -561,6 +638,9 @@ def run_generated(chk, n_heavy, n_light, nmax):
     for alg, count in plan:
         for _ in range(count):
             case = gen_case(rng, nmax if alg in ("hist_nnls", "from_peps", "from_counts") else min(nmax, 1200))
+            # how the estimator is named at the entry point: positionally, by keyword, or (qvality) not at all
+            case["form"] = rng.choice(["positional", "keyword", "default"] if alg == "qvality"
+                                      else ["positional", "keyword"])
             eval_one(chk, case, alg, random_perm(rng, len(case["scores"])), pending)
             if len(pending) >= 12:
                 flush(chk, pending)
@@ -630,7 +710,8 @@ def sweep_small(chk, nmax):
                                             impl=out.tolist(), expected=exp.tolist(),
                                             clause="i-th PEP is not the kernel's value for the i-th PSM's score"))
                 else:
-                    pending.append(("qvality", case, s, out, model_request("qvality", s, t, rec)))
+                    pending.append(("qvality", case, s, out, model_request("qvality", s, t, rec),
+                                    entry_requests("qvality", s, t, rec)))
                 # qvalues_from_peps with given peps (public function, kernel bypassed)
                 peps = np.array([gtab[x] for x in sc])
                 with np.errstate(all="ignore"):
@@ -660,7 +741,8 @@ def sweep_small(chk, nmax):
                                        dict(case=jsonable(dict(case, stub="pi0=0.5"), "from_counts"),
                                             impl=q.tolist(), clause=v))
                 else:
-                    pending.append(("from_counts", case, s, q, model_request("from_counts", s, t, rec)))
+                    pending.append(("from_counts", case, s, q, model_request("from_counts", s, t, rec),
+                                    entry_requests("from_counts", s, t, rec)))
                 if len(pending) >= 3000:
                     flush(chk, pending)
     flush(chk, pending)
@@ -736,6 +818,530 @@ def result_files(chk, n_runs):
 
 
 # ----------------------------------------------------------------------------------------------
+# the dispatch tables PEP_ALGORITHM / QVALUE_ALGORITHM and the defaults of the two entry points
+# ----------------------------------------------------------------------------------------------
+UNKNOWN_NAMES = ["", "Qvality", "QVALITY", "qvality ", "kde", "hist", "nnls", "hist_nnls_", "tdc_", "from_pep",
+                 "counts", "percolator", "None"]
+
+
+def dispatch_cases(chk, n_random):
+    """every table name, the omitted argument, names of the *other* table and unknown names through the real
+    `peps_from_scores` / `qvalues_from_scores`, with the estimators replaced by recorders (which estimator is
+    reached, with which arguments); compared with the Lean tables (`pepdispatch`, `qdispatch`)"""
+    import mokapot.peps as P
+    import mokapot.qvalues as Q
+
+    rng = chk.rng
+    names = [None] + PEP_ALGS + ["qvality_bin", "tdc"] + Q_ALGS + UNKNOWN_NAMES
+    for _ in range(n_random):
+        base = rng.choice(PEP_ALGS + Q_ALGS + ["tdc", "qvality_bin"])
+        k = rng.randrange(len(base) + 1)
+        names.append(rng.choice([base[:k], base + rng.choice("_ x"), base.upper(), base[:k] + base[k + 1:]]))
+    s = np.array([3.0, 1.0, 2.0, 2.0])
+    t = np.array([True, False, True, False])
+    sentinel = np.array([0.125, 0.5, 0.25, 0.25])
+    lines = [req("pepdispatch", NONE if n is None else n) for n in names]
+    lines += [req("qdispatch", NONE if n is None else n) for n in names]
+    resp = common.driver_batch(lines)
+    calls = []
+
+    def recorder(label):
+        def f(*a, **k):
+            calls.append((label, a, k))
+            return sentinel
+        return f
+
+    saved = []
+    for mod_, attr, label in [(P, "peps_from_scores_qvality", "qvality"), (P, "peps_from_scores_kde_nnls", "kde_nnls"),
+                              (P, "peps_from_scores_hist_nnls", "hist_nnls"), (Q, "tdc", "tdc"),
+                              (Q, "qvalues_from_peps", "from_peps"), (Q, "qvalues_from_counts", "from_counts")]:
+        saved.append((mod_, attr, getattr(mod_, attr)))
+        setattr(mod_, attr, recorder(label))
+    try:
+        for table, entry, offset in (("pep", P.peps_from_scores, 0), ("q", Q.qvalues_from_scores, len(names))):
+            for i, n in enumerate(names):
+                for form in (("default",) if n is None else ("positional", "keyword")):
+                    del calls[:]
+                    kwname = "pep_algorithm" if table == "pep" else "qvalue_algorithm"
+                    try:
+                        if form == "default":
+                            out = entry(s, t)
+                        elif form == "keyword":
+                            out = entry(s, t, **{kwname: n})
+                        else:
+                            out = entry(s, t, n)
+                        got = None
+                    except KeyError:
+                        out, got = None, "reject-KeyError"
+                    except Exception as e:  # noqa: BLE001
+                        out, got = None, f"reject-{type(e).__name__}"
+                    if got is None:
+                        if len(calls) != 1 or out is not sentinel:
+                            got = f"calls={[c[0] for c in calls]} passthrough={out is sentinel}"
+                        else:
+                            label, a, k = calls[0]
+                            args_ok = len(a) >= 2 and a[0] is s and a[1] is t
+                            if table == "pep":
+                                binary = bool(k.get("use_binary", a[2] if len(a) > 2 else False)) if label == "qvality" else False
+                                got = "[%s %s]" % ("qvality_bin" if (label == "qvality" and binary) else label,
+                                                   "T" if binary else "F")
+                            else:
+                                got = label
+                                if label == "tdc" and k.get("desc", a[2] if len(a) > 2 else True) is not True:
+                                    got = "tdc-not-descending"
+                            if not args_ok:
+                                got += " (scores/targets not handed on)"
+                    exp = resp[offset + i].strip()
+                    chk.case(None, ("dispatch", table, n, form))
+                    chk.count("dispatch", f"{table}:{'omitted' if n is None else ('table' if not exp.startswith('reject') else 'unknown')}:{form}")
+                    if got == exp:
+                        chk.count("dispatch_agrees", table)
+                        continue
+                    offered = not exp.startswith("reject")
+                    info = dict(table=table, name=n, form=form, impl=got, model=exp)
+                    if offered and got.startswith("reject"):
+                        chk.spec_violation(f"dispatch-offered-estimator-raises:{table}",
+                                           dict(info, clause="for every estimator offered each PSM receives a value: the "
+                                                             "entry point raised for a name of its table", expected=exp))
+                    else:
+                        chk.corr_break(f"{table}dispatch", info)
+    finally:
+        for mod_, attr, old in reversed(saved):
+            setattr(mod_, attr, old)
+
+
+# ----------------------------------------------------------------------------------------------
+# the chunked writer (public functions write_confidences + create_chunks + the chunked reader)
+# ----------------------------------------------------------------------------------------------
+OUT_COLS = ["PSMId", "peptide", "score", "q_value", "posterior_error_prob", "proteinIds"]
+
+
+def parse_files(line):
+    """response of `levelfiles` / `writeconf` -> ([(id, score, q, pep)], [(...)] | None) or the reject atom"""
+    line = line.strip()
+    if not line.startswith("["):
+        return line
+    tf, dfile = dec(line)
+
+    def rows(x):
+        return [(a_int(r[0]), a_rat(r[1]), a_rat(r[2]), a_rat(r[3])) for r in x]
+
+    return rows(tf), (None if isinstance(dfile, str) else rows(dfile))
+
+
+def fx(x):
+    """exact value of a float for comparisons; non-finite values (the +inf q-values of from_counts with a decoy on
+    top, NaN PEPs of a degenerate histogram fit) compare by their repr"""
+    x = float(x)
+    return F(x) if math.isfinite(x) else ("non-finite", repr(x))
+
+
+def num(v):
+    """back to a float for messages / shape checks"""
+    return float(v) if isinstance(v, Fraction) else float(v[1])
+
+
+def read_out_file(path, idmap):
+    """result file -> [(id, score, q, pep)] with exact values (round-trip float parsing)"""
+    import pandas as pd
+
+    if not Path(path).exists():
+        return None
+    df = pd.read_csv(path, sep="\t", float_precision="round_trip", dtype={"PSMId": str})
+    qcol = "q-value" if "q-value" in df.columns else "q_value"
+    return [(idmap.get(str(i), -1), fx(sc), fx(q), fx(pp)) for i, sc, q, pp in
+            zip(df.iloc[:, 0], df["score"], df[qcol], df["posterior_error_prob"])]
+
+
+def sweep_writer(chk, nmax, n_mismatch):
+    """all label vectors, all chunk sizes 1..n+1, decoys on/off for levels of up to nmax rows through the real
+    `write_confidences` fed by the real chunked reader and `create_chunks` — the wiring of `write_to_disk`;
+    plus sequences of unequal lengths (a short PEP vector ...): truncation / pandas error as modelled"""
+    import pandas as pd
+    from mokapot.confidence_writer import write_confidences
+    from mokapot.tabular_data import TabularDataReader, TabularDataWriter
+    from mokapot.utils import create_chunks
+
+    rng = chk.rng
+    cases = []
+    for n in range(1, nmax + 1):
+        for lab in itertools.product([False, True], repeat=n):
+            for c in range(1, n + 2):
+                cases.append((n, lab, c, rng.random() < 0.5, n, n, n))
+    for _ in range(n_mismatch):
+        n = rng.randint(2, nmax + 2)
+        lab = tuple(rng.random() < 0.5 for _ in range(n))
+        lens = [n, n, n]
+        lens[rng.randrange(3)] = rng.randint(0, n + 2)
+        cases.append((n, lab, rng.randint(1, n + 1), rng.random() < 0.5, *lens))
+    lines, impls = [], []
+    with tempfile.TemporaryDirectory() as td, warnings.catch_warnings():
+        warnings.simplefilter("ignore")
+        td = Path(td)
+        for k, (n, lab, c, decoys, nq, npep, nt) in enumerate(cases):
+            ids = list(range(n))
+            scores = [float(2 * (n - i)) for i in range(n)]
+            qs = np.array([(i + 1) / 64.0 for i in range(nq)])
+            ps = np.array([(i + 1) / 128.0 for i in range(npep)])
+            ts = np.array([lab[i % n] for i in range(nt)], dtype=bool)
+            level = td / f"lvl{k}.csv"
+            pd.DataFrame(dict(PSMId=[f"r{i}" for i in ids], Label=[bool(x) for x in lab], peptide="P", proteinIds="X",
+                              score=scores)).to_csv(level, sep="\t", index=False)
+            outs = [td / f"t{k}.csv"] + ([td / f"d{k}.csv"] if decoys else [])
+            for o in outs:
+                TabularDataWriter.from_suffix(o, OUT_COLS).initialize()
+            in_cols = ["PSMId", "peptide", "proteinIds", "score"]
+            try:
+                write_confidences(TabularDataReader.from_path(level).get_chunked_data_iterator(c, in_cols),
+                                  create_chunks(qs, chunk_size=c), create_chunks(ps, chunk_size=c),
+                                  create_chunks(ts, chunk_size=c), list(outs), decoys, "psms", list(OUT_COLS))
+                idmap = {f"r{i}": i for i in ids}
+                impl = (read_out_file(outs[0], idmap), read_out_file(outs[1], idmap) if decoys else None)
+            except Exception as e:  # noqa: BLE001  pandas: ValueError (column length) / IndexError, IndexingError (mask length)
+                impl = ("reject-pandas-length-error" if type(e).__name__ in ("ValueError", "IndexError", "IndexingError")
+                        else f"reject-{type(e).__name__}")
+            impls.append(impl)
+            lines.append(req("writeconf", c, decoys, [[i, F(x)] for i, x in zip(ids, scores)], fl(qs), fl(ps),
+                             [bool(x) for x in ts]))
+    resp = common.driver_batch(lines)
+    for (n, lab, c, decoys, nq, npep, nt), impl, r in zip(cases, impls, resp):
+        m = parse_files(r)
+        equal = nq == n and npep == n and nt == n
+        chk.case(None, ("writer", n, lab, c, decoys, nq, npep, nt))
+        chk.count("writer_sweep", "equal-lengths" if equal else "unequal-lengths")
+        chk.count("writer_chunk_size", "c<n" if c < n else ("c=n" if c == n else "c>n"))
+        info = dict(n=n, labels=list(lab), chunk_size=c, decoys=decoys, lengths=[nq, npep, nt], impl=repr(impl)[:600],
+                    model=repr(m)[:600])
+        if equal and not isinstance(impl, str):
+            # direct re-statement of the clause: row i, with q[i] and pep[i], in the file of its label, in order
+            exp_t = [(i, F(2.0 * (n - i)), F((i + 1) / 64.0), F((i + 1) / 128.0)) for i in range(n) if lab[i]]
+            exp_d = [(i, F(2.0 * (n - i)), F((i + 1) / 64.0), F((i + 1) / 128.0)) for i in range(n) if not lab[i]]
+            if impl[0] != exp_t or (decoys and impl[1] != exp_d):
+                chk.spec_violation("writer-alignment",
+                                   dict(info, expected=repr((exp_t, exp_d if decoys else None))[:600],
+                                        clause="the PEP column of a result file is aligned with its row: "
+                                               "write_confidences did not write row i with pep[i] to the file of its label"))
+                continue
+        elif equal:
+            chk.spec_violation("writer-raises", dict(info, clause="each PSM receives one PEP: write_confidences raised "
+                                                                  "on sequences of equal lengths"))
+            continue
+        if impl != m:
+            chk.corr_break("writeconf", info)
+        else:
+            chk.count("writer_model_agrees")
+
+
+# ----------------------------------------------------------------------------------------------
+# result files, second part: the level loop of _assign_confidence and the chunked writer, for chunk sizes
+# below the level size, decoys on/off, lower-is-better scores, the alternative q-value estimators, both input
+# formats; PEP estimator real or replaced by a stub (it is an abstract parameter of the model)
+# ----------------------------------------------------------------------------------------------
+def g_stub(x, k):
+    """a fixed response, non-increasing in the score up to rounding, with values in [0,1]; the worst scores reach
+    exactly 1, the best exactly 0 (`k` = scale of the scores of the run)"""
+    x = float(x)
+    return min(1.0, max(0.0, 0.55 - 0.6 * x / (k + abs(x))))
+
+
+@contextlib.contextmanager
+def level_recording(stub, gk=128.0):
+    """pass-through wrappers inside mokapot.confidence: per level, what the loop handed to the PEP estimator,
+    what came back, and the level file + arrays present when the writer is entered"""
+    import pandas as pd
+    import mokapot.confidence as C
+
+    levels = []
+    cur = {}
+    o_pep = C.peps_from_scores
+    o_wtd = C.Confidence.write_to_disk
+
+    def pep(*a, **k):
+        ent = dict(args=(np.array(a[0], dtype=float), np.array(a[1], dtype=bool)),
+                   alg=(a[2] if len(a) > 2 else k.get("pep_algorithm", None)), mark0=cur.get("mark"))
+        cur["pep"] = ent
+        if stub == "exit-no-decoys":
+            ent["call"] = "exit-no-decoys"
+            raise SystemExit("Error: no decoy hits available for PEP calculation (stub)")
+        if stub == "exit-other":
+            ent["call"] = "exit-other"
+            raise SystemExit("stub: another reason to exit")
+        if stub == "raised":
+            ent["call"] = "raised"
+            raise FloatingPointError("stub: the estimator failed")
+        if stub == "ones":
+            r = np.ones(len(a[0]))
+        elif stub == "pointwise":
+            r = np.array([g_stub(x, gk) for x in a[0]])
+        else:
+            try:
+                r = o_pep(*a, **k)
+            except SystemExit as e:
+                ent["call"] = "exit-no-decoys" if "no decoy hits available for PEP calculation" in str(e) else "exit-other"
+                raise
+            except BaseException:
+                ent["call"] = "raised"
+                raise
+        ent["call"] = "ok"
+        ent["out"] = np.array(r, dtype=float)
+        return r
+
+    def wtd(self, data_path, columns, level, decoys, out_paths, sqlite_path=None):
+        dp = Path(data_path)
+        lf = pd.read_parquet(dp) if dp.suffix == ".parquet" else pd.read_csv(dp, sep="\t", float_precision="round_trip",
+                                                                            dtype={"PSMId": str})
+        lab = lf[self._target_column]
+        levels.append(dict(level=level, decoys=decoys, out_paths=[Path(x) for x in out_paths],
+                           ids=[str(x) for x in lf["PSMId"]], file_scores=lf["score"].to_numpy(dtype=float),
+                           file_targets=(lab.to_numpy() == 1) if lab.dtype != bool else lab.to_numpy(dtype=bool),
+                           qvals=np.array(self.qvals, dtype=float),
+                           peps=None if self.peps is None else np.array(self.peps, dtype=float),
+                           targets=np.array(self.targets, dtype=bool), pep=cur.pop("pep", None)))
+        cur["in_writer"] = level
+        r = o_wtd(self, data_path, columns, level, decoys, out_paths, sqlite_path)
+        cur.pop("in_writer", None)
+        return r
+
+    C.peps_from_scores = pep
+    C.Confidence.write_to_disk = wtd
+    try:
+        yield levels, cur
+    finally:
+        C.peps_from_scores = o_pep
+        C.Confidence.write_to_disk = o_wtd
+
+
+def gen_file_run(rng, k, real):
+    """options of one assign_confidence run"""
+    if real:
+        return dict(stub=None, alg=real, n_spectra=rng.choice([260, 340]), tie_free=rng.random() < 0.5,
+                    c=rng.choice([37, 64, 101, 150, 10 ** 6]), decoys=rng.random() < 0.7, desc=rng.random() < 0.6,
+                    qalg=rng.choice(["tdc", "from_peps", "from_counts"]), peps_error=rng.random() < 0.3,
+                    fmt=rng.choice([".pin", ".pin", ".parquet"]))
+    stub = ["pointwise", "pointwise", "pointwise", "ones", "ones", "exit-no-decoys", "exit-other", "raised"][k % 8]
+    n_spectra = rng.choice([12, 20, 33])
+    return dict(stub=stub, alg=rng.choice(PEP_ALGS), n_spectra=n_spectra, tie_free=rng.random() < 0.4,
+                c=rng.choice([1, 2, 3, 5, 7, n_spectra - 1, n_spectra, n_spectra + 1, 10 ** 6]),
+                decoys=rng.random() < 0.5, desc=rng.random() < 0.5, qalg="tdc",
+                peps_error=rng.random() < 0.5, fmt=rng.choice([".pin", ".pin", ".parquet"]))
+
+
+def result_files_ext(chk, n_stub, real_algs):
+    import mokapot
+    import mkdata
+    import pipeline
+
+    rng = chk.rng
+    runs = [gen_file_run(rng, k, None) for k in range(n_stub)] + [gen_file_run(rng, 0, a) for a in real_algs]
+    for o in runs:
+        df = mkdata.make_psm_table(rng, n_spectra=o["n_spectra"], max_per_spectrum=2, n_feat=2, integer_scores=True,
+                                   tie_free=o["tie_free"], signal=3.0, label_enc=rng.choice(["pm1", "pm1", "bool"]) if o["fmt"] == ".pin" else "pm1")
+        feat = df["feat0"].to_numpy(dtype=float)
+        opts = {k: o[k] for k in ("stub", "alg", "c", "decoys", "desc", "qalg", "peps_error", "fmt")}
+        opts["gk"] = 128.0 * (4096.0 if o["tie_free"] else 1.0)
+        with tempfile.TemporaryDirectory() as td, warnings.catch_warnings(), np.errstate(all="ignore"):
+            warnings.simplefilter("ignore")
+            td = Path(td)
+            pin = mkdata.write_table(df, td / ("in" + o["fmt"]))
+            raised = None
+            with recording() as rec, level_recording(o["stub"], opts["gk"]) as (levels, cur), \
+                    pipeline.chunk_sizes(confidence=o["c"]):
+                # mark the kernel records at the start of every PEP call
+                import mokapot.confidence as C
+                inner = C.peps_from_scores
+
+                def marked(*a, _inner=inner, **k):
+                    cur["mark"] = (len(rec.nnls), len(rec.hist_grid), len(rec.kde_grid), len(rec.qvality))
+                    return _inner(*a, **k)
+
+                C.peps_from_scores = marked
+                try:
+                    ds = mkdata.read_dataset(pin)
+                    # a lower-is-better score is handed over as such (descs=[False]); the files report its negation
+                    mokapot.assign_confidence([ds], max_workers=1, scores=[feat if o["desc"] else -feat],
+                                              descs=[o["desc"]], prefixes=[None], dest_dir=td, decoys=o["decoys"],
+                                              peps_algorithm=o["alg"], qvalue_algorithm=o["qalg"],
+                                              peps_error=o["peps_error"], do_rollup=True)
+                except BaseException as e:
+                    if isinstance(e, KeyboardInterrupt):
+                        raise
+                    raised = e
+                finally:
+                    C.peps_from_scores = inner
+                pend_call = cur.get("pep")   # a PEP call after which the writer was not reached
+            check_file_run(chk, opts, td, levels, pend_call, raised, rec, cur.get("in_writer"))
+
+
+def check_file_run(chk, opts, td, levels, pend_call, raised, rec, in_writer=None):
+    stub, alg, qalg = opts["stub"], opts["alg"], opts["qalg"]
+    gk = opts.get("gk", 128.0)
+    chk.count("file_run", f"{'stub:' + stub if stub else 'real:' + alg}")
+    chk.count("file_run_chunk", "c=1e6" if opts["c"] >= 10 ** 6 else ("c<=7" if opts["c"] <= 7 else "c>7"))
+    chk.count("file_run_opts", f"decoys={opts['decoys']},desc={opts['desc']},q={qalg},fmt={opts['fmt']},peps_error={opts['peps_error']}")
+    # -- the level at which the run stopped, if any --------------------------------------------------------
+    if raised is not None and in_writer is not None:
+        # q-values and PEPs of the level were in hand, one per row: the property promises the result files
+        chk.case(None, ("file-run-writer-raised", repr(sorted(opts.items()))))
+        chk.spec_violation("result-file-writer-raises",
+                           dict(opts=opts, level=in_writer, error=repr(raised)[:300],
+                                clause="each PSM receives one PEP in its result file: writing the "
+                                       f"{in_writer} level raised {type(raised).__name__}"))
+        levels = levels[:-1]   # the files of that level are incomplete
+    elif raised is not None:
+        call = pend_call["call"] if pend_call else None
+        n = len(pend_call["args"][0]) if pend_call else 0
+        exp = None
+        if call in ("exit-other", "raised"):
+            exp = "reject-SystemExit" if call == "exit-other" else "reject-raised"
+        elif call in ("ok", "exit-no-decoys") and opts["peps_error"]:
+            vals = pend_call["out"] if call == "ok" else np.zeros(n)
+            if len(vals) == 0 or (vals == 1).all():
+                exp = "reject-ValueError"
+        got = "reject-SystemExit" if isinstance(raised, SystemExit) else (
+            "reject-ValueError" if isinstance(raised, ValueError) and "PEP values are all equal to 1" in str(raised)
+            else "reject-raised")
+        chk.case(None, ("file-run-raised", repr(sorted(opts.items())), got))
+        chk.count("file_run_outcome", got)
+        if exp == got:
+            chk.count("file_run_raise_as_modelled")
+            if stub is None:
+                chk.reject(f"assign_confidence:{alg}:{type(raised).__name__}")
+        elif stub is None and (pend_call is None or call in ("raised", "exit-other")):
+            chk.reject(f"assign_confidence:{alg}:{type(raised).__name__}")  # kernel numerics / outside this model
+        else:
+            chk.corr_break("levelfiles-raise", dict(opts=opts, impl=f"{got}: {raised!r}"[:300], model=exp, pep_call=call))
+    elif pend_call is not None:
+        chk.corr_break("levelfiles-raise", dict(opts=opts, impl="no exception, writer not reached", pep_call=pend_call.get("call")))
+    # -- the levels that were written ------------------------------------------------------------------------
+    lines, ctx = [], []
+    for lv in levels:
+        call = lv["pep"]
+        n = len(lv["ids"])
+        idmap = {x: i for i, x in enumerate(lv["ids"])}
+        info = dict(opts=opts, level=lv["level"], rows=n)
+        chk.case(None, ("file-level", repr(sorted(opts.items())), lv["level"], n, tuple(lv["ids"][:8])))
+        chk.count("file_level", f"{lv['level']}:{'n<=c' if n <= opts['c'] else 'n>c'}")
+        if call is None or len(idmap) != n:
+            chk.corr_break("levelfiles", dict(info, error="PEP estimator not called before the writer" if call is None
+                                              else "level identifiers not unique"))
+            continue
+        tf = read_out_file(lv["out_paths"][0], idmap)
+        dfile = read_out_file(lv["out_paths"][1], idmap) if len(lv["out_paths"]) > 1 else None
+        if len(lv["out_paths"]) != (2 if opts["decoys"] else 1) or tf is None or (opts["decoys"] and dfile is None):
+            chk.corr_break("levelfiles", dict(info, error=f"result files {[str(x.name) for x in lv['out_paths']]}"))
+            continue
+        # (1) the estimator saw the rows of the level file, in order (signed score, label)
+        sc_in, t_in = call["args"]
+        if not (np.array_equal(sc_in, lv["file_scores"]) and np.array_equal(t_in, lv["file_targets"])):
+            chk.spec_violation("result-file-estimator-input",
+                               dict(info, clause="aligned with its PSM: the PEP estimator was not given the level file's "
+                                    "(score, label) rows in file order", impl=[float(x) for x in sc_in[:20]],
+                                    expected=[float(x) for x in lv["file_scores"][:20]]))
+            continue
+        peps_ret = call["out"] if call["call"] == "ok" else np.zeros(n)
+        # (2) direct re-statement: every row of the level is in the file of its label, once, with the PEP the
+        #     estimator returned for that row (and, stubbed pointwise estimator: g of the row's own score)
+        bad = None
+        seen = {}
+        for fname, rows, want in (("targets", tf, True), ("decoys", dfile, False)):
+            if rows is None:
+                continue
+            for (i, sc, q, pp) in rows:
+                if i < 0 or i in seen:
+                    bad = f"{fname}: unknown or repeated PSMId (row id {i})"
+                elif bool(lv["file_targets"][i]) != want:
+                    bad = f"{fname}: row {lv['ids'][i]} has the other label"
+                elif len(peps_ret) != n or pp != fx(peps_ret[i]):
+                    bad = f"{fname}: row {lv['ids'][i]} (score {num(sc)}) has PEP {num(pp)}, its own is " \
+                          f"{float(peps_ret[i]) if len(peps_ret) == n else 'missing'}"
+                elif sc != fx(lv["file_scores"][i]):
+                    bad = f"{fname}: row {lv['ids'][i]} has score {num(sc)}, level file {float(lv['file_scores'][i])}"
+                elif stub == "pointwise" and pp != fx(g_stub(num(sc), gk)):
+                    bad = f"{fname}: row {lv['ids'][i]} PEP {num(pp)} is not g(score) = {g_stub(num(sc), gk)}"
+                seen[i] = fname
+                if bad:
+                    break
+            if bad:
+                break
+        if not bad:
+            missing = [lv["ids"][i] for i in range(n) if i not in seen and (opts["decoys"] or lv["file_targets"][i])]
+            if missing:
+                bad = f"rows without a result line: {missing[:5]}"
+        if bad:
+            chk.spec_violation("result-file-alignment",
+                               dict(info, clause="the PEP column of every result file is aligned with its row: " + bad,
+                                    impl=[(lv["ids"][i] if i >= 0 else "?", num(sc), num(pp)) for i, sc, q, pp in (tf + (dfile or []))[:30]],
+                                    expected=[(x, float(s_), float(p_)) for x, s_, p_ in
+                                              zip(lv["ids"][:30], lv["file_scores"][:30], peps_ret[:30])]))
+            continue
+        chk.count("result_file_aligned", f"{'stub' if stub else alg}:{lv['level']}")
+        # (3) shape of the columns over the rows present in the files
+        allrows = tf + (dfile or [])
+        fs = np.array([num(r[1]) for r in allrows])
+        fp = np.array([num(r[3]) for r in allrows])
+        fq = np.array([num(r[2]) for r in allrows])
+        nt, nd = int(lv["file_targets"].sum()), int((~lv["file_targets"]).sum())
+        inq = stub in (None, "pointwise") and (stub == "pointwise" or (nt >= 50 and nd >= 50 and len(set(fs.tolist())) >= 10))
+        if call["call"] == "ok" and stub != "ones" and len(fs):
+            v = spec_clauses(alg, fs, fp)
+            if v is not None and inq:
+                chk.spec_violation(f"result-file-{v.split(':')[0]}:{'stub' if stub else alg}",
+                                   dict(info, clause=f"PEP column of the {lv['level']} result files: {v}",
+                                        scores=fs[:40].tolist(), impl=fp[:40].tolist()))
+                continue
+            if v is not None:
+                chk.reject(f"result-file:{alg}:outside-quantifier:{v.split(':')[0]}")
+        if qalg != "tdc" and len(fs) and opts["decoys"]:
+            v = spec_clauses(qalg, fs, fq)
+            if v is not None and nt >= 50 and nd >= 50 and np.isfinite(fq).all():
+                chk.spec_violation(f"result-file-q-{v.split(':')[0]}:{qalg}",
+                                   dict(info, clause=f"q-value column ({qalg}) of the {lv['level']} result files: {v}",
+                                        scores=fs[:40].tolist(), impl=fq[:40].tolist()))
+                continue
+        # (4) the models: PEPs of the level from the recorded kernel outputs; files from the level loop + writer
+        if stub is None and call["call"] == "ok" and call.get("mark0") is not None:
+            m = call["mark0"]
+            try:
+                if alg == "qvality":
+                    l = req("pepsfromscores", alg, fl(rec.qvality[m[3]][2]), [], [], psms(sc_in, t_in))
+                elif alg == "kde_nnls":
+                    l = req("pepsfromscores", alg, [], fl(rec.kde_grid[m[2]]), fl(rec.nnls[m[0]]), psms(sc_in, t_in))
+                else:
+                    l = req("pepsfromscores", alg, [], fl(rec.hist_grid[m[1]]), fl(rec.nnls[m[0]]), psms(sc_in, t_in))
+                lines.append(l)
+                ctx.append(("peps", lv, info, peps_ret, None))
+            except Exception as e:  # noqa: BLE001
+                chk.corr_break("levelfiles", dict(info, error="no kernel record: " + repr(e)[:200]))
+        pc = fl(call["out"]) if call["call"] == "ok" else Atom(call["call"])
+        if np.isfinite(lv["qvals"]).all() and (call["call"] != "ok" or np.isfinite(call["out"]).all()):
+            lines.append(req("peplevelfiles", min(opts["c"], 10 ** 9), opts["decoys"], True, opts["peps_error"],
+                             [[i, F(s_), bool(t_)] for i, (s_, t_) in enumerate(zip(lv["file_scores"], lv["file_targets"]))],
+                             fl(lv["qvals"]), pc))
+            ctx.append(("files", lv, info, tf, dfile))
+        else:
+            chk.reject("result-file:non-finite-q-or-pep-column")
+    if lines:
+        resp = common.driver_batch(lines)
+        for (kind, lv, info, a, b), r in zip(ctx, resp):
+            if kind == "peps":
+                m = parse_model(r)
+                if isinstance(m, str) and m == "nan-all" and len(a) and np.isnan(a).all():
+                    chk.reject(f"result-file:{alg}:nan-all")
+                elif isinstance(m, str) or not close(a, m):
+                    chk.corr_break(f"pepsfromscores:level:{alg}",
+                                   dict(info, impl=[float(x) for x in a[:40]], model=repr(m)[:400]))
+                else:
+                    chk.count("result_file_pep_model_agrees", f"{alg}:{lv['level']}")
+            else:
+                m = parse_files(r)
+                if isinstance(m, str) or m[0] != a or m[1] != b:
+                    chk.corr_break("levelfiles", dict(info, impl=repr((a[:6], None if b is None else b[:6]))[:700],
+                                                      model=repr(m if isinstance(m, str) else (m[0][:6], None if m[1] is None else m[1][:6]))[:700]))
+                else:
+                    chk.count("result_file_model_agrees", lv["level"])
+
+
+# ----------------------------------------------------------------------------------------------
 def corpus_cases():
     p = common.VERIF / "harness" / "corpus" / "C06.json"
     if p.exists():
@@ -758,6 +1364,10 @@ def search(chk):
     run_generated(chk, 10, 150, 1500)
     if not chk.spec_violations:
         sweep_small(chk, 6)
+    if not chk.spec_violations:
+        sweep_writer(chk, 5, 300)
+    if not chk.spec_violations:
+        result_files_ext(chk, 64, ["hist_nnls"] * 6 + ["kde_nnls"] * 2)
 
 
 def minimise(chk):
@@ -811,13 +1421,22 @@ def main(chk, args):
         run_generated(chk, 7, 60, 1200)
         sweep_small(chk, 4)
         result_files(chk, 3)
+        dispatch_cases(chk, 10)
+        sweep_writer(chk, 4, 40)
+        result_files_ext(chk, 16, ["hist_nnls", "hist_nnls", "kde_nnls"])
     else:
         sweep_primitives(chk, full=True)
         run_generated(chk, 60, 600, 3000)
         sweep_small(chk, 6)
         result_files(chk, 12)
+        dispatch_cases(chk, 300)
+        sweep_writer(chk, 6, 600)
+        result_files_ext(chk, 160, ["hist_nnls"] * 14 + ["kde_nnls"] * 6 + ["qvality"] * 4)
     minimise(chk)
     lc = common.leanchecker("C06") if chk.tier == "thorough" else None
+    if lc is not None:   # the second property module (Props/C06File.lean) is re-checked as well
+        lc2 = common.leanchecker("C06File")
+        lc = (lc[0] and lc2[0], lc[1] + lc2[1])
     chk.assumptions += [
         "PARTIAL claim: the numeric kernels (triqler's spline + its monotonisation, scipy gaussian_kde on the "
         "linspace grid, np.histogram bin midpoints, scipy.optimize.nnls, estimate_pi0_by_slope/np.polyfit) are "
@@ -835,6 +1454,17 @@ def main(chk, args):
         "such a tie the value of the tie group depends on the argsort tie order: "
         "C06_from_counts_tie_order_dependent_witness); if the top-ranked row is a decoy every q-value is +inf "
         "(tallied as rejected 'from_counts-top-decoy-inf')",
+        "entry points: the model of qvalues_from_peps' default pipeline derives the hist_nnls PEPs from the recorded "
+        "(bin midpoints, NNLS solution) itself (op frompepshist; the older op frompeps is fed the PEPs the code "
+        "computed); the model of qvalues_from_counts computes pi0 * #T/#D from the labels (op fromcountspi0); "
+        "qvality_bin (external `qvality` binary, not installed) is covered by the dispatch test and by the theorem "
+        "only, its numeric kernel is never run",
+        "result files: per level, the rows of the level file (read when the writer is entered), the arrays handed to "
+        "the PEP estimator and its return value are recorded by pass-through wrappers on mokapot.confidence."
+        "peps_from_scores and Confidence.write_to_disk; alignment is checked by PSMId with exact float equality "
+        "(text files parsed with float_precision='round_trip'); the level loop is reached with desc=True only "
+        "(assign_confidence negates lower-is-better scores itself), the desc=False branch of the model is covered "
+        "by the theorem and the mutant only; the protein level and the SQLite writer are not driven here",
     ]
     chk.finish(build, RULE, search=search, lc=lc,
                trusted_extra=["triqler.qvality, scipy.stats.gaussian_kde, scipy.optimize.nnls, np.histogram, "
